@@ -1,0 +1,21 @@
+//go:build verif
+
+// Contracts for package writetime (read by /verif/gowp; no executable code).
+// The write time travels in the request context under a private key.
+package writetime
+
+//@ global key nonnil
+
+// hasWT / wtOf: the write time carried by a context
+//@ spec hasWT(c context.Context) bool = ctxValTag(c, key.tag, key.box) != 0 && typeis(iface2(ctxValTag(c, key.tag, key.box), ctxValBox(c, key.tag, key.box)), time.Time)
+//@ spec wtOf(c context.Context) time.Time = tm(ctxValBox(c, key.tag, key.box))
+
+//@ func FromContext
+//@   requires ctx != nil
+//@   modifies nothing
+//@   ensures result1 == hasWT(ctx) && imp(result1, result0 == wtOf(ctx))
+
+//@ func NewContext
+//@   requires ctx != nil
+//@   modifies nothing
+//@   ensures result != nil && hasWT(result) && wtOf(result) == t && ctxHasDL(result) == ctxHasDL(ctx) && ctxDL(result) == ctxDL(ctx)
